@@ -443,6 +443,11 @@ def switch_cond(P, fn, b):
     if t["k"] != "switch":
         return None
     v = P.val_operand(fn, (b, len(body.blocks[b]["stmts"])), t["discr"], body)
+    return cond_of_value(v, b)
+
+
+def cond_of_value(v, b):
+    """Normalised condition of a (bool or discriminant) value; `b` is the block recorded for primitive comparisons."""
     neg = False
     while v[0] == "unop" and v[1] == "Not":
         v = v[2]
@@ -459,6 +464,10 @@ def switch_cond(P, fn, b):
     if v[0] == "phi":
         return ("flag", v, neg)
     return ("val", v, neg)
+
+
+def _cond_negated(c):
+    return c[3] if c[0] == "cmp" else (c[2] if len(c) > 2 else False)
 
 
 class Guard:
@@ -510,16 +519,25 @@ def check_helper(P, g):
         return None
     if g.body.back_edges() or not _effect_free(P, g, 0):
         return None
-    gs = bool_guards(P, g, helpers=False)
+    def drop_flag(x):
+        # compiler-generated drop flags: a switch on a phi of constants (moved-or-not), never a source-level condition
+        return x.cond[0] == "flag" and x.cond[1][0] == "phi" and all(y[0] == "const" for y in x.cond[1][1])
+    allg = bool_guards(P, g, helpers=False)
+    flags = {x.b for x in allg if drop_flag(x)}
+    gs = [x for x in allg if not drop_flag(x)]
     if len(gs) != 1:
         return None
     # no other branching (besides the one guard)
     for b, blk in enumerate(g.body.blocks):
-        if not blk["cleanup"] and blk["term"]["k"] == "switch" and b != gs[0].b:
+        if not blk["cleanup"] and blk["term"]["k"] == "switch" and b != gs[0].b and b not in flags:
             return None
     gd = gs[0]
     exits = exit_sites(P, g)
     res = None
+    cond_ = gd.cond
+    if cond_[0] == "val" and cond_[1][0] == "param" and cond_[1][1] == g.path:
+        cond_ = ("boolparam", cond_[1][2])      # `fn ensure(cond: bool, err) -> Result<(), E>`: the condition is the caller's argument
+        gd = Guard(g, gd.b, cond_, gd.true_t, gd.false_t)
     for truth in (True, False):
         reach_f = g.body.reachable_from(gd.edge(truth)[1])
         reach_p = g.body.reachable_from(gd.edge(not truth)[1])
@@ -529,6 +547,16 @@ def check_helper(P, g):
             res = (gd.cond, truth)
     _CHECK_MEMO[key] = res
     return res
+
+
+def rejects_via_check_helper(P, v):
+    """v (an error exit value) is the error propagated out of a one-condition check helper (`ensure(cond, err)?`)."""
+    for x in walk(v):
+        if x[0] == "call" and isinstance(x[3], str):
+            g = P.fn(x[3]) or P.fn(generic_path(x[3]))
+            if g is not None and g.body is not None and check_helper(P, g) is not None:
+                return True
+    return False
 
 
 def helper_guards(P, fn):
@@ -551,11 +579,34 @@ def helper_guards(P, fn):
         cond, errs_when_true = ch
         cv = P.val_call(fn, fn.body, b)
         mapping = {("param", g.path, i): a for i, a in enumerate(cv[4])}
+        tt, ft = (brk[1], cont[1]) if errs_when_true else (cont[1], brk[1])
         if cond[0] == "cmp":
             cond2 = ("cmp", cond[1], tuple(subst_params(a, mapping) for a in cond[2]), False, b, cond[5] if len(cond) > 5 else None)
+        elif cond[0] == "boolparam" and cond[1] < len(cv[4]):
+            cond2 = cond_of_value(cv[4][cond[1]], b)
+            if _cond_negated(cond2):
+                tt, ft = ft, tt
+                cond2 = (cond2[:3] + (False,) + cond2[4:]) if cond2[0] == "cmp" else (cond2[:2] + (False,))
         else:
             continue
-        tt, ft = (brk[1], cont[1]) if errs_when_true else (cont[1], brk[1])
+        out.append(Guard(fn, s_, cond2, tt, ft))
+    # `cond.then_some(()).ok_or(err)?` / `cond.then(|| ..).ok_or_else(..)?`: Continue exactly when cond holds
+    for b, p, fr, t in P.calls(fn):
+        if not p or last_seg(p) not in ("ok_or", "ok_or_else") or "option::Option" not in p:
+            continue
+        cv = P.val_call(fn, fn.body, b)
+        inner = cv[4][0] if cv[0] == "call" and cv[4] else None
+        if not (inner is not None and inner[0] == "call" and isinstance(inner[3], str) and re.search(r"(core|std)::bool::(<impl bool>::)?then(_some)?$", generic_path(inner[3]))):
+            continue
+        pg = propagated(P, fn, b)
+        if pg is None:
+            continue
+        s_, cont, brk = pg
+        cond2 = cond_of_value(inner[4][0], inner[2])
+        tt, ft = cont[1], brk[1]
+        if _cond_negated(cond2):
+            tt, ft = ft, tt
+            cond2 = (cond2[:3] + (False,) + cond2[4:]) if cond2[0] == "cmp" else (cond2[:2] + (False,))
         out.append(Guard(fn, s_, cond2, tt, ft))
     return out
 
@@ -806,7 +857,7 @@ def discr_place_ty(fn, s):
     return None
 
 
-def control_conditions(P, fn, b):
+def control_conditions(P, fn, b, expand_helpers=True, _depth=0):
     """Switches that control block b: [{'sw': s, 'cond': switch_cond, 'allowed': [labels], 'ty': discr type}].
     A label is a variant name (discriminant switches), True/False (bool switches) or the raw value."""
     body = fn.body
@@ -851,7 +902,109 @@ def control_conditions(P, fn, b):
             else:
                 labels.append(v)
         res.append({"sw": s, "cond": cond, "allowed": labels, "ty": ty})
+    # bool flags (`matches!(..)` stored in a local, `a && b`) and bool-returning private helpers: when the wanted truth value
+    # arises on exactly one assignment path, state that path's conditions instead of the opaque flag
+    if res and expand_helpers and _depth < 3:
+        out2 = []
+        for r in res:
+            rep = None
+            cd = r["cond"]
+            if len(r["allowed"]) == 1 and r["allowed"][0] in (True, False) and cd[0] in ("flag", "val"):
+                t = body.blocks[r["sw"]]["term"]
+                want = r["allowed"][0]      # labels are already folded for a negated test: `want` speaks about the un-negated value
+                if cd[0] == "flag" and t["discr"]["k"] in ("copy", "move") and not t["discr"]["place"]["p"]:
+                    rep = truth_conditions(P, fn, (r["sw"], len(body.blocks[r["sw"]]["stmts"])), t["discr"]["place"]["l"], want, _depth + 1)
+                elif cd[0] == "val" and cd[1][0] == "call" and isinstance(cd[1][3], str):
+                    g = P.fn(cd[1][3]) or P.fn(generic_path(cd[1][3]))
+                    if g is not None and g.body is not None and pure_helper(P, g) and (g.sig or "").endswith("-> bool"):
+                        sub = truth_conditions(P, g, None, 0, want, _depth + 1)
+                        if sub is not None:
+                            mapping = {("param", g.path, i): a for i, a in enumerate(cd[1][4])}
+                            rep = []
+                            for c2 in sub:
+                                c3 = dict(c2)
+                                cc = c3["cond"]
+                                if cc[0] == "cmp":
+                                    c3["cond"] = ("cmp", cc[1], tuple(subst_params(a, mapping) for a in cc[2])) + tuple(cc[3:])
+                                elif cc[0] in ("discr", "val", "flag"):
+                                    c3["cond"] = (cc[0], subst_params(cc[1], mapping)) + tuple(cc[2:])
+                                c3["sw"] = r["sw"]
+                                rep.append(c3)
+            if rep is None:
+                out2.append(r)
+            else:
+                for c2 in rep:
+                    c2 = dict(c2)
+                    c2.setdefault("via", "flag")
+                    if cd[0] == "flag":
+                        pass
+                    out2.append(c2)
+        res = out2
+    # `check(args)?` / `cond.then_some(()).ok_or(e)?`: state the condition itself instead of "the call returned Ok"
+    if res and expand_helpers:
+        hg = {g.b: g for g in helper_guards(P, fn)}
+        for r in res:
+            g = hg.get(r["sw"])
+            if g is None or r["cond"][0] != "discr" or len(r["allowed"]) != 1:
+                continue
+            t = body.blocks[r["sw"]]["term"]
+            tgts = {lab: tb for lab, tb in zip([variant_name(P, r["ty"], v) if r["ty"] else v for v, _ in t["arms"]], [tb for _, tb in t["arms"]])}
+            lab = r["allowed"][0]
+            tb = tgts.get(lab)
+            if tb is None:
+                others = set(tgts.values())
+                tb = t["otherwise"] if t["otherwise"] not in others else None
+            if tb == g.true_t and tb != g.false_t:
+                r["cond"], r["allowed"], r["ty"], r["via"] = g.cond, [True], None, "helper"
+            elif tb == g.false_t and tb != g.true_t:
+                r["cond"], r["allowed"], r["ty"], r["via"] = g.cond, [False], None, "helper"
     return res
+
+
+def truth_conditions(P, fn, loc, local, want, depth=0):
+    """Control conditions (as returned by control_conditions) equivalent to "bool local `local` has the value `want` at
+    `loc`" — or, with loc None, "fn returns `want`" — when that value arises on exactly one assignment path; else None.
+    """
+    body = fn.body
+    if loc is None:
+        sites = [(b, i, "ret", v) for (b, i, cls, v) in exit_sites(P, fn)]
+    else:
+        sites = []
+        rs_ = body.reaching(loc, local)
+        if len(rs_) == 1 and rs_[0] != "entry" and rs_[0][2] == "full" and depth < 6:
+            # a plain copy / negation of another bool local: follow it
+            rv = body.blocks[rs_[0][0]]["stmts"][rs_[0][1]]["rv"]
+            if rv["k"] == "use" and rv["op"]["k"] in ("copy", "move") and not rv["op"]["place"]["p"]:
+                return truth_conditions(P, fn, (rs_[0][0], rs_[0][1]), rv["op"]["place"]["l"], want, depth + 1)
+            if rv["k"] == "unop" and rv.get("op") == "Not" and rv.get("a", {}).get("k") in ("copy", "move") and not rv["a"]["place"]["p"]:
+                return truth_conditions(P, fn, (rs_[0][0], rs_[0][1]), rv["a"]["place"]["l"], not want, depth + 1)
+        for s_ in rs_:
+            if s_ == "entry" or s_[2] not in ("full", "call"):
+                return None
+            sites.append((s_[0], s_[1], s_[2], P.val_def(fn, body, s_, local)))
+    hits, others = [], []
+    for (b, i, kind, v) in sites:
+        while v[0] == "unop" and v[1] == "Not":
+            return None
+        if v == ("const", "int", 1) or v == ("const", "int", 0):
+            if (v[2] == 1) == want:
+                hits.append((b, i))
+        else:
+            others.append((b, i, v))
+    if len(hits) == 1 and not others:
+        return control_conditions(P, fn, hits[0][0], True, depth)
+    if not hits and len(others) == 1:
+        b, i, v = others[0]
+        c = cond_of_value(v, b)
+        base = control_conditions(P, fn, b, True, depth)
+        if c[0] == "cmp":
+            neg = c[3]
+            c2 = c[:3] + (False,) + c[4:]
+            return base + [{"sw": b, "cond": c2, "allowed": [want != neg], "ty": None, "via": "flag"}]
+        if c[0] == "val" and c[1][0] == "call":
+            return base + [{"sw": b, "cond": c, "allowed": [want], "ty": None, "via": "flag"}]
+        return None
+    return None
 
 
 # ---------------------------------------------------------------------------------------
